@@ -146,3 +146,56 @@ Proof.
       apply Qle_shift_div_r; [exact Hpp|]. lra.
     + apply Qle_bool_false' in B. lra.
 Qed.
+
+(* ---------------------------------------------------------------------------------------------- *)
+(* ROUND_HALF_EVEN moves a number by at most half a unit of the last place *)
+Lemma Qltb_true' a b : Qltb a b = true -> a < b.
+Proof. unfold Qltb. intros H. apply negb_true_iff in H. apply Qle_bool_false' in H. exact H. Qed.
+Lemma Qltb_false' a b : Qltb a b = false -> b <= a.
+Proof. unfold Qltb. intros H. apply negb_false_iff in H. apply Qle_bool_iff in H. exact H. Qed.
+
+Lemma zround_err s : inject_Z (zround s) - s <= 1 # 2 /\ s - inject_Z (zround s) <= 1 # 2.
+Proof.
+  unfold zround. pose proof (Qfloor_le s) as F1. pose proof (Qlt_floor s) as F2.
+  rewrite inject_Z_plus in F2. change (inject_Z 1) with 1 in F2.
+  destruct (Qltb (s - inject_Z (Qfloor s)) (1 # 2)) eqn:E1.
+  - apply Qltb_true' in E1. split; lra.
+  - apply Qltb_false' in E1.
+    destruct (Qltb (1 # 2) (s - inject_Z (Qfloor s))) eqn:E2.
+    + apply Qltb_true' in E2. rewrite inject_Z_plus. change (inject_Z 1) with 1. split; lra.
+    + apply Qltb_false' in E2. destruct (Z.even (Qfloor s)).
+      * split; lra.
+      * rewrite inject_Z_plus. change (inject_Z 1) with 1. split; lra.
+Qed.
+
+Definition half_unit (p : nat) : Q := (1 # 2) / pow10 p.
+
+Lemma qround_err p x : qround p x - x <= half_unit p /\ x - qround p x <= half_unit p.
+Proof.
+  unfold qround, half_unit. rewrite unscale_eq. pose proof (pow10_pos p) as Hp.
+  destruct (zround_err (x * pow10 p)) as [H1 H2].
+  assert (E : forall a, a / pow10 p - x == (a - x * pow10 p) / pow10 p) by (intros; field; lra).
+  assert (E' : forall a, x - a / pow10 p == (x * pow10 p - a) / pow10 p) by (intros; field; lra).
+  split.
+  - rewrite E. unfold Qdiv. apply Qmult_le_compat_r; [exact H1|]. apply Qlt_le_weak, Qinv_lt_0_compat, Hp.
+  - rewrite E'. unfold Qdiv. apply Qmult_le_compat_r; [exact H2|]. apply Qlt_le_weak, Qinv_lt_0_compat, Hp.
+Qed.
+
+Lemma qtrunc_nonpos p q : q <= 0 -> q <= qtrunc p q /\ qtrunc p q <= 0.
+Proof.
+  intros Hq. unfold qtrunc, ztrunc. rewrite unscale_eq. pose proof (pow10_pos p) as Hp.
+  assert (Hs : q * pow10 p <= 0) by nra.
+  destruct (Qle_bool 0 (q * pow10 p)) eqn:E.
+  - apply Qle_bool_iff in E. assert (Ez : q * pow10 p == 0) by lra.
+    rewrite (Qfloor_comp _ _ Ez). change (Qfloor 0) with 0%Z. change (inject_Z 0) with 0.
+    split.
+    + apply Qle_shift_div_l; [exact Hp|]. lra.
+    + apply Qle_shift_div_r; [exact Hp|]. lra.
+  - pose proof (Qle_ceiling (q * pow10 p)) as C1.
+    assert (C2 : inject_Z (Qceiling (q * pow10 p)) <= 0).
+    { change 0 with (inject_Z 0). rewrite <- Zle_Qle. 
+      apply Qceiling_resp_le in Hs. change 0 with (inject_Z 0) in Hs. rewrite Qceiling_Z in Hs. exact Hs. }
+    split.
+    + apply Qle_shift_div_l; [exact Hp|]. lra.
+    + apply Qle_shift_div_r; [exact Hp|]. lra.
+Qed.
